@@ -3,7 +3,7 @@
   owners (C09 plurality / quota selector, C01 highest averages, C16 thresholds, C02 quota distributor / largest remainder).
   The `PreConverted(converter, evaluator)` families are compositions (VotelibModel/PreConverted.lean) of the owners' models;
   their profiles are decoded with the owners' decoders (`C13.pDict`, `C13.pBallot`, `C13.pApproval`, `C13.pScorer`,
-  `C05.evalByName`); PAV / SPAV / score voting are the models of C12, STV (Gregory) the model of C03 (`stv_eval`) (`C12.getApproval`, `C12.getScoreProfile`, `C12.getCfg`).
+  `C05.evalByName`); PAV / SPAV / score voting are the models of C12, STV (Gregory) the model of C03 (`stv_eval`), Baldwin / Bucklin / Oklahoma the models of C08 (`C08Seq`), Benham / Tideman the one-seat models of C05 (`C12.getApproval`, `C12.getScoreProfile`, `C12.getCfg`).
 -/
 import VotelibDriver.C09
 import VotelibDriver.C01
@@ -13,6 +13,7 @@ import VotelibDriver.C13
 import VotelibDriver.C05
 import VotelibDriver.C12
 import VotelibDriver.C03
+import VotelibDriver.C08Seq
 import VotelibModel.PreConverted
 open Lean
 namespace VL.Drv.C10
@@ -51,10 +52,17 @@ def own (op : String) (j : Json) : Option (Except String Json) :=
     let cfg ← C12.getCfg j
     let n ← j.getObjValAs? Nat "n"
     pure (exceptJson slotsJson (Score.scoreVoting cfg votes n))
+  | "c10_star" => some do
+    let votes ← C12.getScoreProfile j
+    let cfg ← C12.getCfg j
+    let n ← j.getObjValAs? Nat "n"
+    let ac ← j.getObjValAs? Nat "added_count"
+    let af ← getRat j "added_fraction"
+    pure (exceptJson slotsJson (Score.star ac af cfg votes n))
   | _ => none
 
 def handlers : List (String → Json → Option (Except String Json)) :=
-  [own, C09.handle, C01.handle, C16.handle, C02.handle, C12.handle, C03.handle]
+  [own, C09.handle, C01.handle, C16.handle, C02.handle, C12.handle, C03.handle, C08Seq.handle, C05.handle]
 
 def handle (op : String) (j : Json) : Option (Except String Json) :=
   handlers.firstM (fun h => h op j)
